@@ -80,6 +80,7 @@ fn interleaving_hash(h: &History) -> u64 {
             Kind::TimerArm { .. } => "TA",
             Kind::TimerFire { .. } => "TF",
             Kind::TimerCmp { .. } => "TC",
+            Kind::NeighbourMutate { .. } => "NM",
             Kind::OpCancel { .. } => "OC",
             Kind::HttpSend { .. } => "HS",
             Kind::ServerHandled { .. } => "SH",
